@@ -156,6 +156,12 @@ def _attr_source(body, params, attr, key):
   if param:
     first = min(body.index(s) for s in stmts)
     stmts = [s for s in body if s in stmts or (body.index(s) < max(body.index(t) for t in stmts) and _rebinds(s, param))]
+  # local helpers (`as_tuples = lambda ...`) called by the normaliser are part of it
+  called = {n.func.id for s in stmts for n in ast.walk(s) if isinstance(n, ast.Call) and isinstance(n.func, ast.Name)}
+  helpers = [s for s in body if s not in stmts and isinstance(s, ast.Assign) and len(s.targets) == 1 and
+             isinstance(s.targets[0], ast.Name) and s.targets[0].id in called and s.targets[0].id != param]
+  helpers += [s for s in body if isinstance(s, ast.FunctionDef) and s.name in called]
+  stmts = [s for s in body if s in stmts or s in helpers]
   return param, _label(stmts, param, attr)
 
 
